@@ -126,6 +126,13 @@ def gen_chain_rgfa(rng, n_chrom=None, scaffolds=None, id_style=None, defects=Non
         n_chrom = len(names)
     else:
         names = rng.sample(REF_NAMES[:5] + ["chr7", "chr21", "chrY"], n_chrom)
+        if n_chrom >= 2 and rng.random() < 0.12:
+            # distinct names that look alike: another case, with / without a "chr" prefix
+            a = names[0]
+            names[1] = rng.choice([a.upper() if a.upper() != a else a.lower(), a[3:] if a.startswith("chr") and len(a) > 3 else "chr" + a,
+                                   a.replace("chr", "Chr", 1) if a.startswith("chr") else a.capitalize() + "_"])
+            if len(set(names)) != len(names):
+                names[1] = a + "_2"
     haps = [{"name": n, "rank": 1 + i, "cursor": rng.randint(0, 3000)} for i, n in enumerate(rng.sample(HAP_NAMES, rng.randint(1, 4)))]
     defects = defects or {}
     g.chroms = []
